@@ -73,6 +73,19 @@ def gen_conn():
     for m in re.finditer(r'#\s*define\s+(XMPP_NS_\w+)\s+"([^"]*)"', _read("strophe.h")):
         body += "def %s : List UInt8 := %s\n" % (lower_camel(m.group(1).replace("XMPP_", "")),
                                                   lean_bytes(m.group(2).encode()))
+    scram = strip_comments(src("scram.c"))
+    order = re.search(r"scram_algs\[\]\s*=\s*\{(.*?)\};", scram, re.S)
+    if not order:
+        raise ExtractError("scram_algs[] not found")
+    algs = []
+    for ref in re.findall(r"&(\w+)", order.group(1)):
+        m = re.search(r"const struct hash_alg " + ref + r"\s*=\s*\{\s*\"([^\"]+)\",\s*(SASL_MASK_\w+)", scram)
+        if not m:
+            raise ExtractError("hash_alg %s not found" % ref)
+        algs.append((m.group(1), sasl[m.group(2)]))
+    body += "\n/-- `scram_algs[]` (scram.c) in order: (mechanism name, mask) -/\n"
+    body += "def scramAlgs : List (List UInt8 × Nat) := [" + ", ".join(
+        "(%s, %d)" % (lean_bytes(n.encode()), mk) for n, mk in algs) + "]\n"
     body += "\n/-! stream error conditions in enum order (strophe.h xmpp_error_type_t / auth.c _handle_error) -/\n"
     enum = re.search(r"typedef enum \{([^}]*)\}\s*xmpp_error_type_t", hdr, re.S)
     if not enum:
